@@ -276,14 +276,21 @@ SETS_UNITS = [
     (SETSFILE, "pysrc_sets_add_gen.v", "sets", SETS_REQ,
      [("IPSet", "_compact_single_network", {"added_network": "net"}), ("IPSet", "add:net", {"addr": "net"}),
       ("IPSet", "remove:net", {"addr": "net"})]),
+    # the other argument forms that need no parsing: an IPRange object (`iprange` = (version, start value, end value)), a list of
+    # IPNetwork objects, None
+    (SETSFILE, "pysrc_sets_bulk_gen.v", "sets", SETS_REQ,
+     [("IPSet", "add:iprange", {"addr": "iprange"}), ("IPSet", "remove:iprange", {"addr": "iprange"}),
+      ("IPSet", "update:net", {"iterable": "net"}), ("IPSet", "update:iprange", {"iterable": "iprange"}),
+      ("IPSet", "update:list", {"iterable": "list net"})] +
+     [("IPSet", "__init__:" + t.split()[0], {"iterable": t}) for t in ("none", "net", "iprange", "ipset", "list net")]),
 ]
 UNITS += SETS_UNITS
 FILES = FILES + tuple(u[1] for u in SETS_UNITS)
 SETS_FILES = tuple(u[1] for u in SETS_UNITS)
 STATE["IPSet"] = ()
 STATEVARS["IPSet"] = (("_cidrs", "dict"),)          # the dict `_cidrs` (IPNetwork keys, values True) = the list of its keys
-COQTY.update({"dict": "(list net)", "ipset": "(list net)"})
-SETS_VALUE_TYPES = ("dict", "ipset")
+COQTY.update({"dict": "(list net)", "ipset": "(list net)", "iprange": "(Z * Z * Z)", "none": "unit"})
+SETS_VALUE_TYPES = ("dict", "ipset", "iprange")
 HASATTR[("ipset", "_cidrs")] = True
 for _u in SETS_FILES:
     UNIT_NAMES[_u] = {"_sys_maxint": ("int", "ssize_max")}
@@ -2504,6 +2511,14 @@ def sets_rhs(self, node, env):
             if elem is None:
                 bad(node, "index into a list whose element type is not known yet")
             return ("out", elem, "(py_index %s %s)" % (t, self.int_(sl, env)))      # l[i]: IndexError outside
+        elif ty == "iprange" and not isinstance(sl, ast.Slice):
+            t0 = BY_OUT.get("pysrc_listlike_gen.v")                                  # IPRange.__getitem__ for an int index
+            if t0 is None:
+                bad(node, "IPRange.__getitem__ is not translated")
+            d = t0.get("IPRange", "__getitem__:int", node)
+            self.depfns.append(d)
+            a, b, c = self.fresh(), self.fresh(), self.fresh()
+            return ("out", d.kind, "(let '(%s, %s, %s) := %s in %s %s (width %s) %s %s %s)" % (a, b, c, t, d.cname, a, a, b, c, self.int_(sl, env)))
         elif ty == "net" and not isinstance(sl, ast.Slice):
             t0 = BY_OUT.get("pysrc_listlike_gen.v")                                  # IPNetwork.__getitem__ for an int index
             if t0 is None:
@@ -2761,17 +2776,23 @@ def sets_stmt(self, stmts, env, k, after):
         t, neg = s.test, False
         if isinstance(t, ast.UnaryOp) and isinstance(t.op, ast.Not):
             t, neg = t.operand, True
+        tyname = lambda ty: ty if isinstance(ty, str) else ty[0]
+        if (isinstance(t, ast.Compare) and len(t.ops) == 1 and isinstance(t.ops[0], (ast.Is, ast.IsNot)) and isinstance(t.left, ast.Name)
+                and isinstance(t.comparators[0], ast.Constant) and t.comparators[0].value is None and t.left.id in self.ptypes_declared
+                and t.left.id in env and tyname(env[t.left.id][0]) in SETS_CLASS_OF):
+            # <parameter> is None / is not None: decided by the declared type of the parameter
+            yes = ((tyname(env[t.left.id][0]) == "none") == isinstance(t.ops[0], ast.Is)) != neg
+            return self.block(sets_then(s.body if yes else s.orelse, rest), env, k, after)
         if (isinstance(t, ast.Call) and dotted(t.func) == "isinstance" and len(t.args) == 2 and not t.keywords and isinstance(t.args[0], ast.Name)
-                and t.args[0].id in env and isinstance(env[t.args[0].id][0], str)
-                and env[t.args[0].id][0] in SETS_CLASS_OF):
+                and t.args[0].id in env and tyname(env[t.args[0].id][0]) in SETS_CLASS_OF):
             # isinstance(<parameter>, C) / (C1, C2): decided by the declared type of the parameter
             cs = t.args[1].elts if isinstance(t.args[1], ast.Tuple) else [t.args[1]]
             if any(not isinstance(c, ast.Name) or c.id in env or not (c.id in self.mod.classes or (self.mod.imports.get(c.id) or "").startswith("netaddr.")) for c in cs):
                 bad(s, "isinstance against something other than classes of netaddr")
             if any(c.id == "_int_type" for c in cs) and self.mod.imports.get("_int_type") != "netaddr.compat._int_type":
                 bad(s, "_int_type is not netaddr.compat._int_type")
-            yes = (SETS_CLASS_OF[env[t.args[0].id][0]] in [c.id for c in cs]) != neg
-            return self.block((s.body if yes else s.orelse) + rest, env, k, after)
+            yes = (SETS_CLASS_OF[tyname(env[t.args[0].id][0])] in [c.id for c in cs]) != neg
+            return self.block(sets_then(s.body if yes else s.orelse, rest), env, k, after)
     if (isinstance(s, ast.Try) and len(s.handlers) == 1 and dotted(s.handlers[0].type) == "AttributeError" and not s.orelse and not s.finalbody
             and "AttributeError" not in env and not self.mod.toplevel("AttributeError")
             and all((_is_cidrs(n) and sets_ipset_var(self, n.value, env)) for st in s.body for n in ast.walk(st) if isinstance(n, ast.Attribute))
@@ -2787,6 +2808,12 @@ def sets_stmt(self, stmts, env, k, after):
                                        orelse=[ast.copy_location(ast.Return(value=ast.copy_location(ast.Constant(value=False), s)), s)]), s)
         return self.block([ast.fix_missing_locations(new)] + rest, env, k, after)
     return None
+
+
+def sets_then(chosen, rest):
+    """the statements that run when a decided `if` takes the branch `chosen`: the rest of the block follows unless the branch
+    ends with return / raise"""
+    return list(chosen) if chosen and isinstance(chosen[-1], (ast.Return, ast.Raise)) else list(chosen) + rest
 
 
 def sets_owned(self, x):
@@ -2829,7 +2856,7 @@ _is_value0 = is_value
 _parse_type0 = parse_type
 # the class a declared parameter type stands for (IPGlob, the subclass of IPRange, is not told apart: `rng` is not used for
 # isinstance tests against IPGlob)
-SETS_CLASS_OF = {"ipset": "IPSet", "net": "IPNetwork"}
+SETS_CLASS_OF = {"ipset": "IPSet", "net": "IPNetwork", "iprange": "IPRange", "none": None, "list": None}
 
 
 def parse_type(s):
@@ -2898,6 +2925,23 @@ def _srca_loop(old, self, s, rest, env, k, after):
         # a loop after an `if` with exits is reached once per branch: number the auxiliary names h<N> from a base that depends on
         # the loop only, so that both translations are the same text (names are lexically scoped; the bases are far apart)
         self.nfresh = 1000 * self.loopno[id(s)]
+        if (isinstance(s, ast.For) and isinstance(s.target, ast.Name) and isinstance(s.iter, ast.Name) and is_list(env.get(s.iter.id, ("",))[0])
+                and env[s.iter.id][0][1].find().t in SETS_CLASS_OF):
+            # `if isinstance(<loop variable>, C): ..` at the top of the body, for a list whose element type is declared: decided here
+            # (the dropped branch may rebind the loop variable); the node is our own copy of the function
+            elem, body = env[s.iter.id][0][1].find().t, []
+            for st in s.body:
+                t = st.test if isinstance(st, ast.If) else None
+                if (isinstance(t, ast.Call) and dotted(t.func) == "isinstance" and len(t.args) == 2 and not t.keywords
+                        and isinstance(t.args[0], ast.Name) and t.args[0].id == s.target.id and not body
+                        and all(isinstance(c, ast.Name) and c.id not in env for c in (t.args[1].elts if isinstance(t.args[1], ast.Tuple) else [t.args[1]]))):
+                    cs = [c.id for c in (t.args[1].elts if isinstance(t.args[1], ast.Tuple) else [t.args[1]])]
+                    if any(not (c in self.mod.classes or (self.mod.imports.get(c) or "").startswith("netaddr.")) for c in cs):
+                        bad(st, "isinstance against something other than classes of netaddr")
+                    body += st.body if SETS_CLASS_OF[elem] in cs else st.orelse
+                else:
+                    body.append(st)
+            s.body = body or [ast.copy_location(ast.Pass(), s)]
     return old(self, s, rest, env, k, after)
 
 
